@@ -46,8 +46,13 @@ class EngineError(Exception):
 
 class Engine:
     def __init__(self, exe):
+        # hook H1 (TEXEL_VERIF builds): the engine's clock is driven by searched nodes (100 per ms),
+        # so time-limited prior searches (movetime, clocks, ponderhit) do the same work on every run
+        # and under any machine load; only `stop` after `go infinite` / `go ponder` stays wall-clock
+        env = dict(os.environ)
+        env.setdefault("TEXEL_VERIF_VCLOCK", "100")
         self.p = subprocess.Popen([exe], stdin=subprocess.PIPE, stdout=subprocess.PIPE,
-                                  stderr=subprocess.DEVNULL, bufsize=0)
+                                  stderr=subprocess.PIPE, bufsize=0, env=env)
         self.buf = b""
         self.send("uci")
         self.read_until("uciok", 30)
@@ -68,7 +73,12 @@ class Engine:
             if r:
                 chunk = os.read(self.p.stdout.fileno(), 65536)
                 if not chunk:
-                    raise EngineError("engine closed stdout (rc=%s)" % self.p.poll())
+                    try:
+                        self.p.wait(timeout=5)
+                        err = self.p.stderr.read().decode(errors="replace")[-800:]
+                    except Exception:
+                        err = ""
+                    raise EngineError("engine closed stdout (rc=%s) stderr: %s" % (self.p.poll(), err))
                 self.buf += chunk
         line, self.buf = self.buf.split(b"\n", 1)
         return line.decode(errors="replace").rstrip("\r")
@@ -95,7 +105,7 @@ class Engine:
         if self.p.poll() is None:
             self.p.kill()
             self.p.wait()
-        for f in (self.p.stdin, self.p.stdout):
+        for f in (self.p.stdin, self.p.stdout, self.p.stderr):
             try:
                 f.close()
             except Exception:
@@ -143,8 +153,10 @@ def run_session(exe, steps, search_timeout=120):
     searches (in order)."""
     eng = Engine(exe)
     probes = []
+    cur = None
     try:
-        for st in steps:
+        for si, st in enumerate(steps):
+            cur = (si, st)
             k = st["k"]
             if k == "opt":
                 if st["value"] == "":
@@ -182,6 +194,9 @@ def run_session(exe, steps, search_timeout=120):
                     probes.append(canonicalise(lines))
             else:
                 raise ValueError("bad step %r" % (st,))
+    except EngineError as ex:
+        opts = [json.dumps(x) for x in steps[:cur[0]] if x["k"] == "opt"][-6:]
+        raise EngineError("%s at step %d %s (last option steps: %s)" % (ex, cur[0], json.dumps(cur[1]), opts))
     finally:
         eng.close()
     return probes
